@@ -3,7 +3,8 @@
    X04 Nano handler line format (NanoLine.tla, scenarios from JsonLineMC)   X05 ResponseWriter / reply helpers (HttpHelpers.tla)
    X06 Logger front end (LogFront.tla)   X07 config value texts + usage (ValueLit.tla)   X08 ReadRand, ansi texts, SliceContain (Misc.tla)
    X09 colour on versus colour off (Colour.tla)   X10 struct tag syntax (TagParse.tla)
-   X11 daemon.Run role dispatch, Launch outcomes off the protocol (DaemonRole.tla)"""
+   X11 daemon.Run role dispatch, Launch outcomes off the protocol (DaemonRole.tla)
+   X12 osutil.WaitFor / WaitForInterrupt / WaitForStop over delivered signals (WaitFor.tla)"""
 import json
 import vlib
 from vlib import judge
@@ -70,6 +71,17 @@ def run(ctx, which):
         rows = vlib.read_ndjson(out)
         bad, _, _ = judge(ctx, "daemon", "DaemonRole", rows, nshards=1, workers=2, timeout=300)
         what = lambda c: json.dumps(c)[:300]
+    elif which == "X12":
+        r = ctx.tlc("osutil", "WaitForMC", "SPECIFICATION Spec\nCONSTANT MaxSigs = %d\nINVARIANT Facts\nCHECK_DEADLOCK FALSE\n" % (3 if q else 4), workers=8, timeout=900)
+        if r.violated:
+            raise vlib.Infra("spec-level counterexample:\n" + r.trace[:2000])
+        mr = ctx.tlc("osutil", "WaitForMC", "SPECIFICATION Spec\nCONSTANT MaxSigs = 2\nINVARIANT NeverDies\nCHECK_DEADLOCK FALSE\n", workers=2, timeout=300, count=False, tag="vacuity")
+        if not mr.violated:
+            raise vlib.Infra("vacuity: no modelled run ends with the process dying")
+        ctx.run([hb, "-mode", "waitfor", "-maxlen", "2" if q else "3", "-out", out], timeout=1500)
+        rows = vlib.read_ndjson(out)
+        bad, _, _ = judge(ctx, "osutil", "WaitForCases", rows, nshards=2, workers=2, timeout=600)
+        what = lambda c: "%s with other handlers for %s: signals %s observed %s (ready=%s)" % (c["fn"], c["elsewhere"], c["sigs"], c["obs"], c["ready"])
     elif which == "X06":
         ctx.run([hb, "-mode", "front", "-out", out], timeout=600)
         rows = vlib.read_ndjson(out)
